@@ -257,6 +257,7 @@ fn main() {
         Some("replay") => cmd_replay(&args),
         Some("hashes") => cmd_hashes(&args),
         Some("trace") => cmd_trace(&args),
+        Some("survey") => cmd_survey(&args),
         _ => {
             eprintln!("usage: fzsim check <Cxx> <quick|thorough> | replay <file> | hashes <Cxx> <runs> | trace <Cxx> <run>");
             2
@@ -605,5 +606,23 @@ fn cmd_trace(args: &[String]) -> i32 {
     if let Some(v) = r.violation {
         println!("violation at step {}: {} {}", v.step, v.finding.rule, v.finding.detail);
     }
+    0
+}
+
+/// triage helper: run a batch without stopping and list every distinct (rule, signature) found
+fn cmd_survey(args: &[String]) -> i32 {
+    let id = args.get(2).cloned().unwrap_or_default();
+    let runs: u64 = args.get(3).and_then(|s| s.parse().ok()).unwrap_or(300);
+    let thorough = args.get(4).map_or(false, |s| s == "thorough");
+    probes::THOROUGH.store(thorough, std::sync::atomic::Ordering::Relaxed);
+    let Some(mut prop) = prop_cfg(&id, thorough) else { return 2 };
+    prop.runs = runs;
+    run::COLLECT.store(true, std::sync::atomic::Ordering::Relaxed);
+    let known = if args.iter().any(|a| a == "--ignore-known") { vec![] } else { load_known("known_findings.json") };
+    let b = run::run_batch(seed_from_env(), &prop, &known, workers(), false);
+    for ((rule, sig), (n, detail)) in &b.collected {
+        println!("{n:8}  {rule}  [{sig}]  e.g. {}", &detail[..detail.len().min(200)]);
+    }
+    println!("runs {} known hits {:?} harness_error {:?}", b.runs_done, b.known_hits, b.harness_error);
     0
 }
